@@ -846,6 +846,31 @@ func c04(c *core.Ctx) {
 	// "ends with the right code": the code the return statement chose is the code returned (C02/R7: no goroutine of
 	// the call writes its result variable); and over HTTP the server notices a client that went away only once the
 	// request body has been read to its end, which for single-request methods the first receive does (C08/R3)
+	// ---------------------------------------------------------------- R12
+	if c.Rule("R12", "a caller that goes away cancels the handler: over HTTP/1.1 that works because net/http, once the request body has been consumed, watches the connection and cancels the request's context. The server therefore leaves net/http's handling of the connection alone: it neither switches the connection to full duplex (ResponseController.EnableFullDuplex removes the implicit consumption of the request body on the first reply write, and with it the watch) nor hijacks it", 1) {
+		n := 0
+		for _, fn := range p.LibFuncs("httpgrpc") {
+			core.Instrs(fn, func(in ssa.Instruction) {
+				cc := core.CallOf(in)
+				if cc == nil {
+					return
+				}
+				ci := core.InfoOf(cc)
+				if ci.Name == "SetWriteDeadline" {
+					n++
+					c.Fail(core.FuncName(fn)+":connection-handling-left-to-net/http:"+ci.Name, in.Pos(), "the HTTP server puts a write deadline on the reply: the status of a call that ends BY its deadline (DeadlineExceeded in the trailer frame / the unary reply) is written after that moment and can no longer be written — the caller gets a cut reply (unexpected EOF / Unavailable) instead of DeadlineExceeded")
+				}
+				if ci.Name == "EnableFullDuplex" || ci.Name == "Hijack" || ci.Name == "SetReadDeadline" {
+					n++
+					c.Fail(core.FuncName(fn)+":connection-handling-left-to-net/http:"+ci.Name, in.Pos(), "the HTTP server calls %s: net/http then no longer consumes the rest of the request body when the reply is first written and does not start watching the connection for the client going away — a caller's cancel no longer reaches the handler's context", ci.Name)
+				}
+			})
+		}
+		if n == 0 {
+			c.Ok("httpgrpc:connection-handling-left-to-net/http", token.NoPos, "no EnableFullDuplex / Hijack / SetReadDeadline / SetWriteDeadline in the HTTP transport")
+		}
+		c.EndRule()
+	}
 	c.Borrow("C02", map[string]string{"R7": "R10"}, c02)
 	c.Borrow("C08", map[string]string{"R3": "R11"}, c08)
 
